@@ -46,12 +46,12 @@ theorem Tys.pick_length : ∀ (a : Tys) (mask : List Bool), mask.length = a.leng
 
 /-! ### histories -/
 
-theorem hStep_judgement_pool (tb : Tables) (xsd11 : Bool) (pool : List Item) (op : HOp)
+theorem hStep_judgement_pool (tb : Tables) (xsd11 : Bool) (pool : List (List Item)) (op : HOp)
     (h : op.isPartial = false) : (hStep tb xsd11 pool op).1 = pool := by
   cases op <;> simp [HOp.isPartial] at h <;> rfl
 
 /-- the pool after a history depends only on its partial applications: judgements never change an item -/
-theorem hPool_filter (tb : Tables) (xsd11 : Bool) : ∀ (ops : List HOp) (pool : List Item),
+theorem hPool_filter (tb : Tables) (xsd11 : Bool) : ∀ (ops : List HOp) (pool : List (List Item)),
     hPool tb xsd11 pool ops = hPool tb xsd11 pool (ops.filter HOp.isPartial)
   | [], _ => rfl
   | op :: ops, pool => by
@@ -60,15 +60,43 @@ theorem hPool_filter (tb : Tables) (xsd11 : Bool) : ∀ (ops : List HOp) (pool :
       rw [hStep_judgement_pool tb xsd11 pool op hp]; exact hPool_filter tb xsd11 ops pool
     · simp only [hPool, List.filter_cons, hp, if_true]; exact hPool_filter tb xsd11 ops _
 
-theorem hRun_append (tb : Tables) (xsd11 : Bool) : ∀ (pre post : List HOp) (pool : List Item),
+theorem hRun_append (tb : Tables) (xsd11 : Bool) : ∀ (pre post : List HOp) (pool : List (List Item)),
     hRun tb xsd11 pool (pre ++ post) = hRun tb xsd11 pool pre ++ hRun tb xsd11 (hPool tb xsd11 pool pre) post
   | [], _, _ => rfl
   | op :: pre, post, pool => by
     simp only [List.cons_append, hRun, hPool, hRun_append tb xsd11 pre post]
 
-theorem hRun_length (tb : Tables) (xsd11 : Bool) : ∀ (ops : List HOp) (pool : List Item),
+theorem hRun_length (tb : Tables) (xsd11 : Bool) : ∀ (ops : List HOp) (pool : List (List Item)),
     (hRun tb xsd11 pool ops).length = ops.length
   | [], _ => rfl
   | _ :: ops, _ => by simp [hRun, hRun_length tb xsd11 ops]
+
+/-- every step keeps the values that are in the pool and at most appends new ones -/
+theorem hStep_prefix (tb : Tables) (xsd11 : Bool) (pool : List (List Item)) (op : HOp) :
+    ∃ extra, (hStep tb xsd11 pool op).1 = pool ++ extra := by
+  cases op with
+  | coerce i k t r =>
+    simp only [hStep]
+    split <;> exact ⟨_, rfl⟩
+  | papp i mask => exact ⟨_, rfl⟩
+  | _ => exact ⟨[], by simp [hStep]⟩
+
+theorem hPool_prefix (tb : Tables) (xsd11 : Bool) : ∀ (ops : List HOp) (pool : List (List Item)),
+    ∃ extra, hPool tb xsd11 pool ops = pool ++ extra
+  | [], pool => ⟨[], by simp [hPool]⟩
+  | op :: ops, pool => by
+    obtain ⟨e1, h1⟩ := hStep_prefix tb xsd11 pool op
+    obtain ⟨e2, h2⟩ := hPool_prefix tb xsd11 ops (hStep tb xsd11 pool op).1
+    exact ⟨e1 ++ e2, by simp only [hPool]; rw [h2, h1, List.append_assoc]⟩
+
+/-- a value that is in the pool stays what it is, whatever is judged, partially applied or converted later -/
+theorem hPool_getD (tb : Tables) (xsd11 : Bool) (ops : List HOp) (pool : List (List Item)) (j : Nat)
+    (hj : j < pool.length) : (hPool tb xsd11 pool ops).getD j [] = pool.getD j [] := by
+  obtain ⟨e, h⟩ := hPool_prefix tb xsd11 ops pool
+  rw [h, List.getD_eq_getElem?_getD, List.getD_eq_getElem?_getD, List.getElem?_append_left hj]
+
+/-- function conversion builds a new value: the argument is not the result unless it already matched -/
+theorem castSeq_length (tb : Tables) (t : Nat) (v : List Item) : (castSeq tb t v).length = v.length := by
+  simp [castSeq]
 
 end EPV.SeqType
